@@ -5,7 +5,7 @@
 From stdpp Require Import gmap.
 From Coq Require Import NArith.
 From RV Require Import Base.Str Base.Utf8 Base.PathLex Path.Helpers Path.Expand Path.Abs Memfs.State Memfs.Ops Memfs.Walk Memfs.WalkOps Memfs.Step
-  Memfs.Wf Memfs.WfMore Memfs.WfMove Memfs.Spec Memfs.Refine Memfs.RefineMore Memfs.RefineChown Memfs.RefineChmod Memfs.RefineList Memfs.RefineCopy Memfs.Names Memfs.CopyFile Memfs.RefineMove Memfs.ContentFacts Memfs.Kinds Memfs.RemoveAll Memfs.LinkFacts
+  Memfs.Wf Memfs.WfMore Memfs.WfMove Memfs.Spec Memfs.Refine Memfs.RefineMore Memfs.RefineChown Memfs.RefineChmod Memfs.RefineList Memfs.RefineEntries Memfs.RefineCopy Memfs.Names Memfs.CopyFile Memfs.RefineMove Memfs.ContentFacts Memfs.Kinds Memfs.RemoveAll Memfs.LinkFacts
   Macros.Asserts.
 
 Definition resolve_t (env : envmap) (t : tree) (s : list N) : mres rpath :=
@@ -143,6 +143,14 @@ Definition spec_step (env : envmap) (t : tree) (o : op) : option (tree * result)
                               end
                    end
   | ORoot => Some (t, inl (VPath (render_rpath [])))
+  | OEntries s wo =>
+      (* covered: sorted by name, none of follow / dirs_first / files_first / contents_first *)
+      if plain_sorted_b wo then
+        Some (t, match resolve_t env t s with
+                 | inr e => inr e
+                 | inl p => if spec_exists t p then inl (VItems (map inl (spec_entries t wo p))) else inr EDoesNotExist
+                 end)
+      else None
   | OCopy s d o =>
       (* covered: a source without links, not followed, to a path that does not exist and whose parent is a real directory, or (a directory)
          into an existing real directory under its own name *)
@@ -197,7 +205,6 @@ Definition spec_step (env : envmap) (t : tree) (o : op) : option (tree * result)
                              end
                  end
       end
-  | _ => None
   end.
 
 Lemma query_bool_spec env m s (f : entry → bool) (g : tree → rpath → bool) :
@@ -338,6 +345,12 @@ Proof.
     destruct (queries_refine m p HK) as (_ & Hd & _). rewrite <- Hd. fold (is_dir_at m p).
     destruct (is_dir_at m p) eqn:Hdir; [by rewrite (listing_refines env m k s p HW HK E Hdir)|].
     unfold listing_op. by rewrite E, Hdir.
+  - (* entries *) destruct (plain_sorted_b wo) eqn:Hpl; [|discriminate]. apply plain_sorted_b_spec in Hpl. injection Hs as <- <-.
+    exists m. split; [|done]. rewrite <- resolve_abs. destruct (resolve env m s) as [p|e] eqn:E; [|done].
+    destruct (queries_refine m p HK) as (He & _). rewrite <- He.
+    destruct (m_ents m !! p) as [x|] eqn:Hx.
+    + rewrite bool_decide_eq_true_2 by eauto. pose proof (entries_refines env m s wo p x HW HK Hpl E Hx) as H. cbn [step] in H. rewrite E in H. exact H.
+    + rewrite bool_decide_eq_false_2 by (intros [? ?]; done). pose proof (entries_missing env m s wo p E Hx) as H. cbn [step] in H. rewrite E in H. exact H.
   - (* copy *) destruct (cp_follow o) eqn:Hnf; [discriminate|]. rewrite <- !resolve_abs in Hs.
     destruct (resolve env m s) as [sp|e] eqn:Es; [|discriminate]. destruct (resolve env m d) as [dp|e] eqn:Ed; [|discriminate].
     rewrite !lookup_abs in Hs. destruct (m_ents m !! sp) as [r|] eqn:Hr; [|discriminate]. cbn [fmap option_fmap option_map] in Hs.
@@ -432,8 +445,9 @@ Example history_refines_nonvacuous :
            OChown [47; 97; 47; 98]%N {| co_uid := Some 5%N; co_gid := None; co_follow := false; co_recursive := true |};
            OMoveP [47; 97; 47; 98]%N [47; 99]%N; OSetCwd [47; 99]%N; OReadAll [102]%N; OMode [102]%N; ORemoveAll [47; 97]%N; ORoot;
            OList LAllPaths [47]%N; OCopy [47; 99]%N [47; 100]%N {| cp_mode := None; cp_cdirs := false; cp_cfiles := false; cp_follow := false |};
-           OReadAll [47; 100; 47; 102]%N] with
-  | Some (t, rs) => (size (t_nodes t) =? 5) && (length rs =? 15) &&
+           OReadAll [47; 100; 47; 102]%N; OEntries [47; 100]%N (w_sort_by_name (w_files default_wopts))] with
+  | Some (t, rs) => (size (t_nodes t) =? 5) && (length rs =? 16) &&
+                    match nth 15 rs (inr EDoesNotExist) with inl (VItems [inl [47; 100; 47; 102]%N]) => true | _ => false end &&
                     match nth 14 rs (inr EDoesNotExist) with inl (VBytes [1%N]) => true | _ => false end &&
                     match nth 12 rs (inr EDoesNotExist) with inl (VPaths [[47; 99]%N; [47; 99; 47; 102]%N]) => true | _ => false end &&
                     match nth 8 rs (inr EDoesNotExist) with inl (VBytes [1%N]) => true | _ => false end &&
